@@ -2,9 +2,15 @@ package harness
 
 import (
 	"bytes"
+	"crypto/tls"
 	"fmt"
+	"net"
+	"net/http"
+	"os"
 	"strings"
 	"time"
+
+	"github.com/gorilla/websocket"
 
 	"go.nanomsg.org/mangos/v3"
 	"go.nanomsg.org/mangos/v3/verifsim/simrt"
@@ -26,7 +32,12 @@ func wireBody(n int, salt int) []byte {
 
 // wirePeer connects a codec-level peer to a socket of kind over tran; the SUT
 // listens (role "listen") or dials (role "dial"). Returns the peer's end.
-func wirePeer(w *W, nt *Net, s mangos.Socket, tran, role string) *NetConn {
+// tran sim / simipc: simulated network (engine B); tcp / ipc / tls+tcp: real
+// sockets on loopback (engine R).
+func wirePeer(w *W, nt *Net, s mangos.Socket, tran, role string) net.Conn {
+	if tran != "sim" && tran != "simipc" {
+		return wirePeerReal(w, s, tran, role)
+	}
 	name := strings.TrimPrefix(w.Addr(tran), tran+"://")
 	addr := tran + "://" + name
 	if role == "listen" {
@@ -62,11 +73,92 @@ func wirePeer(w *W, nt *Net, s mangos.Socket, tran, role string) *NetConn {
 	return got
 }
 
-func c15Wire(w *W) {
+func wirePeerReal(w *W, s mangos.Socket, tran, role string) net.Conn {
+	srv, cli := tlsConfigs()
+	netw, laddr := "tcp", "127.0.0.1:0"
+	if tran == "ipc" {
+		netw = "unix"
+		laddr = fmt.Sprintf("%s/verif-c15-%d-%d.sock", os.TempDir(), os.Getpid(), w.RunIdx)
+		os.Remove(laddr)
+		w.OnCleanup(func() { os.Remove(laddr) })
+	}
+	if role == "listen" {
+		url := tran + "://" + laddr
+		var opts map[string]interface{}
+		if tran == "tls+tcp" {
+			opts = map[string]interface{}{mangos.OptionTLSConfig: srv}
+		}
+		l, err := s.NewListener(url, opts)
+		if err != nil {
+			w.Failf("HARNESS/listen", "%v", err)
+			return nil
+		}
+		if err := l.Listen(); err != nil {
+			w.Failf("HARNESS/listen", "%v", err)
+			return nil
+		}
+		target := strings.TrimPrefix(l.Address(), tran+"://")
+		var c net.Conn
+		if tran == "tls+tcp" {
+			c, err = tls.Dial("tcp", target, cli)
+		} else {
+			c, err = net.Dial(netw, target)
+		}
+		if err != nil {
+			w.Failf("HARNESS/dial", "%v", err)
+			return nil
+		}
+		w.OnCleanup(func() { c.Close() })
+		return c
+	}
+	var ln net.Listener
+	var err error
+	if tran == "tls+tcp" {
+		ln, err = tls.Listen("tcp", laddr, srv)
+	} else {
+		ln, err = net.Listen(netw, laddr)
+	}
+	if err != nil {
+		w.Failf("HARNESS/listen", "%v", err)
+		return nil
+	}
+	w.OnCleanup(func() { ln.Close() })
+	got := make(chan net.Conn, 1)
+	go func() {
+		c, err := ln.Accept()
+		if err == nil {
+			got <- c
+		}
+	}()
+	opts := map[string]interface{}{mangos.OptionDialAsynch: true}
+	if tran == "tls+tcp" {
+		opts[mangos.OptionTLSConfig] = cli
+	}
+	if err := s.DialOptions(tran+"://"+ln.Addr().String(), opts); err != nil {
+		w.Failf("HARNESS/dial", "%v", err)
+		return nil
+	}
+	select {
+	case c := <-got:
+		w.OnCleanup(func() { c.Close() })
+		return c
+	case <-time.After(10 * time.Second):
+		w.Failf("HARNESS/dial", "the socket never dialled")
+		return nil
+	}
+}
+
+func c15Wire(w *W) { c15WireOn(w, []string{"sim", "simipc"}) }
+
+// c15WireReal: the same exchange with the codec over real loopback / unix /
+// TLS connections and the real transport/{tcp,ipc,tlstcp} files (engine R).
+func c15WireReal(w *W) { c15WireOn(w, []string{"tcp", "ipc", "tls+tcp"}) }
+
+func c15WireOn(w *W, trans []string) {
 	kind := allKinds[w.Choose(simrt.SShape, len(allKinds))]
-	tran := []string{"sim", "simipc"}[w.Choose(simrt.SShape, 2)]
+	tran := trans[w.Choose(simrt.SShape, len(trans))]
 	role := []string{"listen", "dial"}[w.Choose(simrt.SShape, 2)]
-	ipc := tran == "simipc"
+	ipc := tran == "simipc" || tran == "ipc"
 	w.SetShape("kind", kind)
 	w.SetShape("tran", tran)
 	w.SetShape("role", role)
@@ -85,7 +177,7 @@ func c15Wire(w *W) {
 		}
 	})
 	pc := wirePeer(w, nt, s, tran, role)
-	if pc == nil {
+	if pc == nil || w.Failed() {
 		return
 	}
 	self, peer := protoOf(kind), protoOf(peerKind[kind])
@@ -253,7 +345,7 @@ func firstDiff(a, b []byte) int {
 // index: byte position 0..7 x replacement value (every value but the correct
 // one) of the peer's connection header.
 func c15Handshake(w *W) {
-	cell := w.RunIdx / 2
+	cell := w.ScenOrd
 	pos := cell % 8
 	delta := 1 + (cell/8)%255
 	rest := cell / (8 * 255)
@@ -274,10 +366,11 @@ func c15Handshake(w *W) {
 			attached++
 		}
 	})
-	pc := wirePeer(w, nt, s, tran, role)
-	if pc == nil {
+	pcn := wirePeer(w, nt, s, tran, role)
+	if pcn == nil {
 		return
 	}
+	pc := pcn.(*NetConn)
 	peer := protoOf(peerKind[kind])
 	bad := wcHeader(peer)
 	bad[pos] = byte(int(bad[pos]) + delta)
@@ -369,7 +462,148 @@ func c15Handshake(w *W) {
 	}
 }
 
+// c15WS: the WebSocket mapping over real loopback sockets (engine R): the
+// client offers "<peer-name>.sp.nanomsg.org" and each message is one binary
+// frame whose payload is protocol header + body. The far end is gorilla's
+// client / server driven by the harness, not mangos.
+func c15WS(w *W) {
+	kind := allKinds[w.Choose(simrt.SShape, len(allKinds))]
+	role := []string{"listen", "dial"}[w.Choose(simrt.SShape, 2)]
+	w.SetShape("kind", kind)
+	w.SetShape("tran", "ws")
+	w.SetShape("role", role)
+	s := w.Sock(kind)
+	defer s.Close()
+	_ = s.SetOption(mangos.OptionRecvDeadline, 5*time.Second)
+	_ = s.SetOption(mangos.OptionSendDeadline, 5*time.Second)
+	if kind == "sub" {
+		mustSet(w, s, mangos.OptionSubscribe, "")
+	}
+	info := s.Info()
+	var ws *websocket.Conn
+	if role == "listen" {
+		l, err := s.NewListener("ws://127.0.0.1:0/sp", nil)
+		if err != nil || l.Listen() != nil {
+			w.Failf("HARNESS/listen", "ws listen: %v", err)
+			return
+		}
+		url := l.Address()
+		// a client offering another sub-protocol is refused
+		bad := &websocket.Dialer{Subprotocols: []string{"bogus.sp.nanomsg.org"}}
+		if c, _, err := bad.Dial(url, nil); err == nil {
+			c.Close()
+			w.Failf("C15/ws-wrong-subprotocol-accepted", "%s listener accepted a WebSocket client that offered only bogus.sp.nanomsg.org", kind)
+			return
+		}
+		good := &websocket.Dialer{Subprotocols: []string{info.SelfName + ".sp.nanomsg.org"}}
+		c, _, err := good.Dial(url, nil)
+		if err != nil {
+			w.Failf("C15/ws-conforming-client-refused", "%s listener refused a client offering %s.sp.nanomsg.org: %v", kind, info.SelfName, err)
+			return
+		}
+		ws = c
+	} else {
+		offered := make(chan []string, 1)
+		got := make(chan *websocket.Conn, 1)
+		up := websocket.Upgrader{CheckOrigin: func(*http.Request) bool { return true }}
+		ln, err := net.Listen("tcp", "127.0.0.1:0")
+		if err != nil {
+			w.Failf("HARNESS/listen", "%v", err)
+			return
+		}
+		srv := &http.Server{Handler: http.HandlerFunc(func(rw http.ResponseWriter, r *http.Request) {
+			sp := websocket.Subprotocols(r)
+			select {
+			case offered <- sp:
+			default:
+			}
+			up.Subprotocols = sp
+			c, err := up.Upgrade(rw, r, nil)
+			if err == nil {
+				got <- c
+			}
+		})}
+		go srv.Serve(ln)
+		w.OnCleanup(func() { srv.Close() })
+		if err := s.DialOptions("ws://"+ln.Addr().String()+"/sp", map[string]interface{}{mangos.OptionDialAsynch: true}); err != nil {
+			w.Failf("HARNESS/dial", "%v", err)
+			return
+		}
+		select {
+		case sp := <-offered:
+			want := info.PeerName + ".sp.nanomsg.org"
+			if len(sp) != 1 || sp[0] != want {
+				w.Failf("C15/ws-subprotocol-offer:"+kind, "%s dialling over WebSocket offered %q, the mapping requires %q", kind, sp, want)
+				return
+			}
+		case <-time.After(10 * time.Second):
+			w.Failf("HARNESS/dial", "no WebSocket request arrived")
+			return
+		}
+		select {
+		case ws = <-got:
+		case <-time.After(10 * time.Second):
+			w.Failf("HARNESS/dial", "upgrade did not complete")
+			return
+		}
+	}
+	defer ws.Close()
+	time.Sleep(20 * time.Millisecond)
+	for i := 0; i < 3 && !w.Failed(); i++ {
+		body := wireBody(wireLens[w.Choose(simrt.SProg, len(wireLens)-6)], i)
+		if canRecv(kind) && plainInbound(kind) {
+			payload := inbound(kind, uint32(i+1), string(body))
+			if err := ws.WriteMessage(websocket.BinaryMessage, payload); err != nil {
+				w.Failf("HARNESS/ws-write", "%v", err)
+				return
+			}
+			c := w.Do("RecvMsg", func() (interface{}, error) { return s.RecvMsg() })
+			if !c.Wait(10*time.Second) || c.Err != nil {
+				w.Failf("C15/conforming-message-not-delivered:"+kind, "%s over ws: one binary frame of %d bytes was not delivered (%v)", kind, len(payload), c.Err)
+				return
+			}
+			m := c.Val.(*mangos.Message)
+			if !bytes.Equal(m.Body, body) {
+				w.Failf("C15/received-bytes-differ:"+kind, "%s over ws: body of %d bytes arrived as %d bytes", kind, len(body), len(m.Body))
+				return
+			}
+			m.Free()
+			w.Delivery++
+			w.Probe("ws-codec-to-mangos")
+		}
+		if canSend(kind) && kind != "rep" && kind != "respondent" && kind != "xrep" && kind != "xrespondent" {
+			out := wireBody(wireLens[w.Choose(simrt.SProg, len(wireLens)-6)], i+50)
+			if err := SendBody(s, kind, out); err != nil {
+				w.Failf("C15/send-failed:"+kind, "%v", err)
+				return
+			}
+			ws.SetReadDeadline(time.Now().Add(10 * time.Second))
+			mt, p, err := ws.ReadMessage()
+			if err != nil {
+				w.Failf("C15/frame-unparsable:"+kind, "%s over ws: %v", kind, err)
+				return
+			}
+			hdr := rawHeader(kind, 1, 1)
+			switch kind {
+			case "pair1", "star":
+				hdr = []byte{0, 0, 0, 0}
+			case "req", "surveyor":
+				hdr = p[:4]
+			}
+			want := append(append([]byte(nil), hdr...), out...)
+			if mt != websocket.BinaryMessage || !bytes.Equal(p, want) {
+				w.Failf("C15/ws-frame:"+kind, "%s over ws: message type %d (binary = %d), %d payload bytes; expected one binary frame of header % x + %d-byte body", kind, mt, websocket.BinaryMessage, len(p), hdr, len(out))
+				return
+			}
+			w.Delivery++
+			w.Probe("ws-mangos-to-codec")
+		}
+	}
+}
+
 func init() {
-	register(&Scenario{Name: "wire-messages", Prop: "C15", Horizon: time.Hour, Run: c15Wire})
-	register(&Scenario{Name: "handshake-deviation-grid", Prop: "C15", Horizon: time.Hour, Run: c15Handshake})
+	register(&Scenario{Name: "wire-messages-real-transports", Prop: "C15", Engine: "R", Weight: 1, Run: c15WireReal})
+	register(&Scenario{Name: "websocket-mapping", Prop: "C15", Engine: "R", Weight: 1, Run: c15WS})
+	register(&Scenario{Name: "wire-messages", Prop: "C15", Weight: 9, Horizon: time.Hour, Run: c15Wire})
+	register(&Scenario{Name: "handshake-deviation-grid", Prop: "C15", Horizon: time.Hour, Weight: 9, Run: c15Handshake})
 }
